@@ -18,6 +18,9 @@ def _c11_case(c):
         k = nxt()
         if k == "d":
             prep.append({"kind": "d", "path": unhex(nxt())})
+        elif k == "l":
+            p = unhex(nxt())
+            prep.append({"kind": "l", "path": p, "target": unhex(nxt())})
         else:
             p = unhex(nxt())
             prep.append({"kind": "f", "path": p, "tag": int(nxt())})
@@ -61,14 +64,14 @@ CONFIG = {
     "timeout_search": 900,
     "assumptions": [
         "kernel semantics are modelled, not verified: path resolution (component walk, '..' = physical parent, symbolic links followed up to 40 times, final link not followed by lstat/link/symlink/unlink, O_CREAT through a dangling link), link(2) not following a final symbolic link, hard links = shared inode; the model is tied to the real kernel + Go runtime only by the correspondence run",
-        "a stored link's text is walked by the kernel as the component list the model keeps beside it (split on '/', '' and '.' dropped); for the repaired store the text is filepath.Clean's rendering of that list",
+        "Lstat checks of the store (resolveRelToBase's parent loop, ensureDirNoSymlink, removeSymlink) are modelled as look-ups at the lexical location; the mutating system calls (mkdir, open, link, symlink, unlink, chmod) as kernel walks; their agreement is proved where used (walk_lex / walk_real) and exercised by the correspondence run",
         "path/filepath (Clean, Join, Rel, Dir, IsAbs, Abs) hand-modelled on component lists (lc / rel_under); archive/tar, compress/gzip, digest verification, os.CreateTemp (temp files in TMPDIR are outside the statement) not modelled",
-        "permission bits are modelled (umask 022, MkdirAll/OpenFile creation modes, os.Chmod under PreservePermissions following links) for modes <= 0777; Chtimes, ownership, setuid/setgid/sticky bits are not modelled; the harness snapshot additionally compares mode, inode, size, content and link text of every object outside the working directory",
-        "Inv hypothesis: the working directory and its ancestors are real directories, links below the working directory are lexically confined (true of any tree without links, and preserved by the store), files below it share no inode with the outside",
-        "the harness runs as root inside chroot(-dir); titles/entry names/targets are generated from a fixed grammar",
+        "permission bits are modelled (umask 022, Mkdir/OpenFile creation modes, os.Chmod under PreservePermissions) for modes <= 0777; Chtimes (which still follows an unpacked link and sets the times of its target), ownership, setuid/setgid/sticky bits are not modelled; the harness snapshot additionally compares mode, inode, size, content and link text of every object outside the working directory",
+        "Inv hypothesis: the working directory and its ancestors are real directories, files below it share no inode with the outside. Nothing is assumed about symbolic links: any links with any targets, made by the store (raw archive targets) or by the user, may be present",
+        "the harness runs as root inside chroot(-dir); titles/entry names/targets are generated from a fixed grammar; no concurrency (check-then-act between Lstat and the system call is not in scope)",
     ],
-    "level_text": "Coq theorems over all trees satisfying the invariant, all titles, all entry sequences (regular, directory, symlink, hard link, other), all link targets and any process cwd: every sequence of pushes of the repaired store leaves the view (existence, type, content, permission bits, link text) of every location outside the working directory unchanged and preserves the invariant; names and entries that lexically resolve outside are rejected with an error; the working directory itself stays a real directory; seven machine-checked counter-examples show the pre-repair code (each repair removed individually) escaping. Model tied to the code by a differential run of the extracted model against Store.Push on a real file system inside a chroot, plus an independent before/after snapshot oracle",
-    "level_note": "full for existence/type/content/permission bits/link text of every location outside the working directory and for the working directory's own entry; kernel path resolution and path/filepath are modelled (tied by the correspondence run), not verified; timestamps/ownership/special mode bits not modelled; F10, F11 and four further escapes found with the model are fixed on the repo branch (six fix: commits)",
+    "level_text": "Coq theorems over all trees satisfying the invariant (any symbolic links allowed), all titles, all entry sequences (regular, directory, symlink, hard link, other), all link targets, PreservePermissions on/off and any process cwd: every sequence of pushes of the repaired store leaves the view (existence, type, content, permission bits, link text) of every location outside the working directory unchanged and preserves the invariant; the working directory itself stays a real directory; names and entries that lexically resolve outside are rejected with an error; links are created with the raw archive target (C12) and never followed below the working directory, so every mutation happens at the validated lexical location; nine machine-checked counter-examples show the pre-repair code (each repair removed individually) escaping. Model tied to the code by a differential run of the extracted model against Store.Push on a real file system inside a chroot, plus an independent before/after snapshot oracle",
+    "level_note": "full for existence/type/content/permission bits/link text of every location outside the working directory and for the working directory's own entry; kernel path resolution and path/filepath are modelled (tied by the correspondence run), not verified; timestamps (Chtimes through an unpacked link)/ownership/special mode bits and Lstat-then-act races not modelled; five fix: commits on the repo branch (F10, raw absolute title, link replacing the unpack directory, ensureDirNoSymlink, removeSymlink)",
     "technique": "machine-checked proof in Coq (invariant over kernel path resolution with symbolic and hard links; lexical = physical lemma; frame theorem for every system call of the store) + model/implementation correspondence on a real file system + snapshot oracle",
     "explanation": "frame theorem (nothing outside the working directory changes) and invariant preservation for all push sequences of the repaired file store, proved in Coq; extracted model diffed against Store.Push (verdicts + full tree listing) on generated cases in a chroot sandbox; oracle = snapshot of everything outside the working directory before/after each Push + lexical outside-name rejection",
 }
